@@ -97,7 +97,7 @@ class _TextCueParser:
       element = element.parent()
 
     span = self._make_span(self.parent)
-    self.parent.push_child(span)
+    self._push_span(span)
     self.parent = span
     self.ts_spans.append(span)
 
@@ -141,7 +141,7 @@ class _TextCueParser:
     # all other tags can be handled as a span
 
     span = self._make_span(self.parent)
-    self.parent.push_child(span)
+    self._push_span(span)
     self.parent = span
 
     if isinstance(span.parent(), model.P):
@@ -201,7 +201,11 @@ class _TextCueParser:
 
     self.parent = self.parent.parent()
 
-    if reopen_ts_span and isinstance(self.parent, (model.P, model.Span)):
+    if isinstance(self.parent, model.Rb):
+      # the closed span was ruby base content: back to the ruby element, through <rb> and <rbc>
+      self.parent = self.parent.parent().parent()
+
+    if reopen_ts_span and isinstance(self.parent, (model.P, model.Span, model.Ruby)):
       self._open_ts_span()
 
   def _handle_string(self, token: StringToken):
@@ -212,12 +216,20 @@ class _TextCueParser:
         self.parent.push_child(model.Br(self.parent.get_doc()))
       span = self._make_span(self.parent)
       span.push_child(model.Text(self.parent.get_doc(), line))
-      if isinstance(self.parent, model.Ruby):
-        rb = model.Rb(self.parent.get_doc())
-        rb.push_child(span)
-        self.ruby_rbc.push_child(rb)
+      self._push_span(span)
+
+  def _push_span(self, span: model.Span):
+    """Adds a span to the current element; directly within <ruby> it is ruby base content, which is wrapped in <rb>"""
+    if isinstance(self.parent, model.Ruby):
+      if len(self.ruby_rbc) > len(self.ruby_rtc):
+        # still the ruby base that precedes the next <rt>
+        rb = self.ruby_rbc.last_child()
       else:
-        self.parent.push_child(span)
+        rb = model.Rb(self.parent.get_doc())
+        self.ruby_rbc.push_child(rb)
+      rb.push_child(span)
+    else:
+      self.parent.push_child(span)
 
   def _make_span(self, parent: model.ContentElement) -> model.Span:
     span = model.Span(self.parent.get_doc())
